@@ -194,6 +194,27 @@ fn ops_for(dl: usize, p: usize, thorough: bool) -> Vec<Op> {
     v
 }
 
+/// A bitmap for `n` bytes with pages of `p` bytes, made - in turn with (n, p) - directly, by
+/// growing one of half the size, or by growing an empty one in two steps of odd sizes: the
+/// region's bitmap tracks the region whichever way it got its size.
+fn tracked_bitmap(n: usize, pz: NonZeroUsize) -> AtomicBitmap {
+    match (n + pz.get()) % 3 {
+        _ if n < 2 => AtomicBitmap::new(n, pz),
+        0 => AtomicBitmap::new(n, pz),
+        1 => {
+            let mut bm = AtomicBitmap::new(n / 2, pz);
+            bm.enlarge(n - n / 2);
+            bm
+        }
+        _ => {
+            let mut bm = AtomicBitmap::new(0, pz);
+            bm.enlarge(1);
+            bm.enlarge(n - 1);
+            bm
+        }
+    }
+}
+
 fn dirty_pages(bm: &AtomicBitmap) -> BTreeSet<usize> {
     (0..bm.len() + 2).filter(|i| bm.is_bit_set(*i)).collect()
 }
@@ -567,7 +588,7 @@ fn link_kind(l: Link) -> usize {
 fn part_large(v: &Verdicts, n: usize, p: usize, depth: usize) -> u64 {
     let pz = NonZeroUsize::new(p).unwrap();
     let placed = Placed::new(n, 0, false);
-    let bm = AtomicBitmap::new(n, pz);
+    let bm = tracked_bitmap(n, pz);
     // SAFETY: placed outlives vs
     let vs = unsafe { VolatileSlice::with_bitmap(placed.ptr(), n, bm.slice_at(0), None) };
     histories(v, "slice/RefSlice-two-bitmap-words", &placed, &vs, &bm, p, depth)
@@ -579,7 +600,7 @@ fn big_writes(v: &Verdicts, p: usize) -> u64 {
     let n = 256 * 1024;
     let pz = NonZeroUsize::new(p).unwrap();
     let placed = Placed::new_large(n);
-    let bm = AtomicBitmap::new(n, pz);
+    let bm = tracked_bitmap(n, pz);
     // SAFETY: placed outlives vs
     let vs = unsafe { VolatileSlice::with_bitmap(placed.ptr(), n, bm.slice_at(0), None) };
     let what = "slice/RefSlice-256KiB";
@@ -626,7 +647,7 @@ fn part_a(v: &Verdicts, n: usize, p: usize, thorough: bool) -> u64 {
     let placed = Placed::new(n, 0, false);
     // plain RefSlice
     {
-        let bm = AtomicBitmap::new(n, pz);
+        let bm = tracked_bitmap(n, pz);
         // SAFETY: placed outlives vs
         let vs = unsafe { VolatileSlice::with_bitmap(placed.ptr(), n, bm.slice_at(0), None) };
         t += slice_root(v, "slice/RefSlice", &placed, &vs, &bm, 0, p, true, thorough, if thorough { 3 } else { 2 });
@@ -634,7 +655,7 @@ fn part_a(v: &Verdicts, n: usize, p: usize, thorough: bool) -> u64 {
     }
     // the container is the tail of a larger region: nested base offset
     for k in [1usize, p, p + 1] {
-        let bm = AtomicBitmap::new(n + k, pz);
+        let bm = tracked_bitmap(n + k, pz);
         let vs = unsafe { VolatileSlice::with_bitmap(placed.ptr(), n, bm.slice_at(k), None) };
         t += slice_root(v, "slice/RefSlice-at-offset", &placed, &vs, &bm, k, p, true, false, if thorough { 2 } else { 1 });
         let nested = bm.slice_at(0).slice_at(k);
@@ -645,13 +666,13 @@ fn part_a(v: &Verdicts, n: usize, p: usize, thorough: bool) -> u64 {
     }
     // ArcSlice
     {
-        let bm = Arc::new(AtomicBitmap::new(n, pz));
+        let bm = Arc::new(tracked_bitmap(n, pz));
         let vs = unsafe { VolatileSlice::with_bitmap(placed.ptr(), n, ArcSlice::new(bm.clone(), 0), None) };
         t += slice_root(v, "slice/ArcSlice", &placed, &vs, &bm, 0, p, true, false, if thorough { 2 } else { 1 });
     }
     // Option flavours
     {
-        let some = Some(AtomicBitmap::new(n, pz));
+        let some = Some(tracked_bitmap(n, pz));
         let vs = unsafe { VolatileSlice::with_bitmap(placed.ptr(), n, some.slice_at(0), None) };
         t += slice_root(v, "slice/Option-Some", &placed, &vs, some.as_ref().unwrap(), 0, p, true, false, if thorough { 2 } else { 1 });
         let none: Option<AtomicBitmap> = None;
@@ -684,7 +705,7 @@ fn build_mem(layout: &Layout, p: usize) -> GuestMemoryMmap<AtomicBitmap> {
         .regs
         .iter()
         .map(|(s, n)| {
-            let r = MmapRegionBuilder::new_with_bitmap(*n as usize, AtomicBitmap::new(*n as usize, NonZeroUsize::new(p).unwrap()))
+            let r = MmapRegionBuilder::new_with_bitmap(*n as usize, tracked_bitmap(*n as usize, NonZeroUsize::new(p).unwrap()))
                 .with_mmap_prot(libc::PROT_READ | libc::PROT_WRITE)
                 .with_mmap_flags(libc::MAP_ANONYMOUS | libc::MAP_PRIVATE)
                 .build()
@@ -1177,7 +1198,7 @@ fn migration(ctx: &Ctx) -> (u64, u64) {
 pub fn run(prop: &'static str, tier: Tier, replay: Option<String>) -> i32 {
     let ctx = crate::new_ctx(prop, tier, "model_checking", &replay);
     let thorough = tier.thorough();
-    ctx.set_rule("E1, one enumeration judged by two oracles. (A) tracked VolatileSlices (plain RefSlice, RefSlice at a base offset, nested BaseSlice, ArcSlice, Option Some/None) of 16 and 24 bytes x page sizes {1,2,3,4,5,8,16,N+5} x every derivation chain of up to 2 (thorough 3) links (subslice, offset, split_at either half, get_slice, get_ref->to_slice, get_array_ref->to_slice / ref_at->to_slice; arguments from the boundary alphabet of the page size) x every write and read path of the container alphabet through the derived accessor x start bitmaps clean / checkerboard / all dirty; (B) one mmap region and (C) guest memory with two adjacent regions and a hole, page sizes as above: every route of the byte-access interface at every (address, length), descriptor reads through the real raw-fd adapter over interposed read(2) (full, short, failing after touching a prefix, EINTR), descriptor writes out of guest memory over interposed write(2) (full, short, EIO at once, ENOSPC after a prefix, EINTR, accepting nothing: nothing may be marked), accessors derived through the region/memory API, and write;reset;write histories; all histories of 3 (thorough 5) steps over an alphabet of 14 memory / reset / harvest / reset-range operations with memory and bitmap carried over (also on containers of 136 / 200 / 528 bytes whose bitmaps span two or three 64-page words, with writes and resets straddling the word boundary); single transfers of 64 KiB .. 128 KiB+1 through nine routes into a tracked container of 256 KiB with 4096- and 1000-byte pages. C05: every byte that differs from the pre-operation snapshot must be dirty in the owning region's bitmap at the region's own offset, and over a history a page that was written stays dirty until an operation that names it clears it; plus (E3) all interleavings of one tracked write (20 write paths, incl. the typed and the slice-to-slice copies and reads from a real descriptor with read(2) as a scheduling point) with one fetch-and-clear consumer that copies the reported pages - after a final pass the consumer's image must equal guest memory. C16: dirty-after == dirty-before U pages overlapping the bytes the reference model says were written, and in the histories a reset / reset-range / fetch-and-clear leaves exactly the other pages dirty and reports exactly what was dirty (a failing descriptor read may additionally mark its whole target). State = (memory contents, dirty set); every transition runs on the real objects.");
+    ctx.set_rule("E1, one enumeration judged by two oracles. (A) tracked VolatileSlices (their bitmaps made directly or grown to size by enlarge, in turn; plain RefSlice, RefSlice at a base offset, nested BaseSlice, ArcSlice, Option Some/None) of 16 and 24 bytes x page sizes {1,2,3,4,5,8,16,N+5} x every derivation chain of up to 2 (thorough 3) links (subslice, offset, split_at either half, get_slice, get_ref->to_slice, get_array_ref->to_slice / ref_at->to_slice; arguments from the boundary alphabet of the page size) x every write and read path of the container alphabet through the derived accessor x start bitmaps clean / checkerboard / all dirty; (B) one mmap region and (C) guest memory with two adjacent regions and a hole, page sizes as above: every route of the byte-access interface at every (address, length), descriptor reads through the real raw-fd adapter over interposed read(2) (full, short, failing after touching a prefix, EINTR), descriptor writes out of guest memory over interposed write(2) (full, short, EIO at once, ENOSPC after a prefix, EINTR, accepting nothing: nothing may be marked), accessors derived through the region/memory API, and write;reset;write histories; all histories of 3 (thorough 5) steps over an alphabet of 14 memory / reset / harvest / reset-range operations with memory and bitmap carried over (also on containers of 136 / 200 / 528 bytes whose bitmaps span two or three 64-page words, with writes and resets straddling the word boundary); single transfers of 64 KiB .. 128 KiB+1 through nine routes into a tracked container of 256 KiB with 4096- and 1000-byte pages. C05: every byte that differs from the pre-operation snapshot must be dirty in the owning region's bitmap at the region's own offset, and over a history a page that was written stays dirty until an operation that names it clears it; plus (E3) all interleavings of one tracked write (20 write paths, incl. the typed and the slice-to-slice copies and reads from a real descriptor with read(2) as a scheduling point) with one fetch-and-clear consumer that copies the reported pages - after a final pass the consumer's image must equal guest memory. C16: dirty-after == dirty-before U pages overlapping the bytes the reference model says were written, and in the histories a reset / reset-range / fetch-and-clear leaves exactly the other pages dirty and reports exactly what was dirty (a failing descriptor read may additionally mark its whole target). State = (memory contents, dirty set); every transition runs on the real objects.");
     ctx.assume("raw-pointer writes are exempt as documented; marks through a bare BaseSlice with wrapping offsets are outside both oracles");
     if ctx.replay_of.is_some() {
         println!("replay: the enumeration is deterministic; re-running the quick tier and reporting whether the recorded key fails again");
